@@ -100,10 +100,10 @@ Proof.
         replace (emax f - prec f <? E) with false by lia.
         pose proof (nearest_bounds n d M E HM) as NB. fold N Dn in NB.
         assert (HMq : q <= M <= q + 1) by (split; (timeout 30 nia)).
-        assert (Hq2 : H2 <= q) by (timeout 30 nia).
         assert (Eq1 : encode f (q + 1) E = encode f q E + 1).
-        { unfold encode. fold H2. replace (q + 1 <? H2) with false by lia.
-          replace (q <? H2) with false by lia. lia. }
+        { unfold encode. fold H2. destruct (q + 1 <? H2) eqn:E1; destruct (q <? H2) eqn:E0; try lia.
+          assert (E = femin f) by (destruct (Z.eq_dec E (femin f)); [assumption|specialize (HqE ltac:(lia)); lia]).
+          lia. }
         destruct (Z.eq_dec M q) as [->|]; [lia|]. replace M with (q + 1) by lia. lia.
     + (* just above the binade: canonical exponent E + 1 *)
       assert (Eq : q = 2 * H2 - 1) by (timeout 30 nia). subst q.
